@@ -37,6 +37,7 @@ type PropConfig struct {
 	InferClosurePre bool           `json:"infer_closure_pre"`
 	InferLoopInv    bool           `json:"infer_loop_inv"`
 	StagePurity     bool           `json:"stage_purity"`
+	OrderFns        []string       `json:"order_functions"` // functions whose output must not depend on map iteration order
 	PurityPkgs      []string       `json:"purity_packages"` // every stage closure of these packages gets the purity rule (no symbolic execution)
 }
 
@@ -256,6 +257,13 @@ func runCheck(args []string) int {
 		}
 		if maxDepth >= 0 && d < maxDepth {
 			e.discharge(outDir, timeout, all, runtime.NumCPU())
+		}
+	}
+	for _, n := range cfg.OrderFns {
+		if f := e.findFunction(n); f != nil {
+			e.checkMapOrderIndependence(f)
+		} else {
+			drift = append(drift, n+": function not found in the current tree")
 		}
 	}
 	for _, p := range cfg.PurityPkgs {
